@@ -3,7 +3,11 @@ From BEI Require Export Check.Lib Model.Modif.
 Open Scope Z_scope.
 
 Inductive mstep_t := mstep (v : value) (dt : Q) (refstate : state).
-Inductive ucase := umod (m : modif) (refaid : Z) (eps : Q) (steps : list mstep_t).
+Inductive ucase :=
+| umod (m : modif) (refaid : Z) (eps : Q) (steps : list mstep_t)
+(* ExponentialCurve with ANY positive exponents (the model has integer ones only), on the inputs where the statement
+   fixes the output without a model of powf: every component in {0, 1, -1} - the fixed points, sign preserved *)
+| uexp (ex ey ez : Q) (steps : list mstep_t).
 Inductive uout := rmod (outs : list value) | panic.
 
 Fixpoint model_steps (refaid : Z) (m : modif) (steps : list mstep_t) : list value :=
@@ -27,6 +31,7 @@ Definition vclose (eps : Q) (a b : value) : bool :=
 Definition agree (p : ucase * uout) : bool :=
   match p with
   | (umod m ra eps steps, rmod outs) => list_eqb (vclose eps) (model_steps ra m steps) outs
+  | (uexp _ _ _ steps, rmod outs) => list_eqb veqb (map (fun s => match s with mstep v _ _ => numeric v end) steps) outs
   | _ => false
   end.
 
@@ -134,6 +139,9 @@ Definition ok (p : ucase * uout) : Z :=
          | MAccumulate a _ => ok_acc (Z.eqb a ra) [0; 0; 0]%Q steps outs
          | _ => []
          end)
+  | (uexp _ _ _ steps, rmod outs) =>
+      first_fail ((19, Nat.eqb (length steps) (length outs)) ::
+                  map (fun so => match fst so with mstep v _ _ => (6, veqb (snd so) (numeric v)) end) (combine steps outs))
   | (_, panic) => 18
   end.
 
